@@ -1,6 +1,9 @@
 package main
 
 import (
+	"strconv"
+	"regexp"
+	"math/bits"
 	"bytes"
 	"context"
 	"fmt"
@@ -375,6 +378,47 @@ func runC02(cfg Config) {
 		}
 	}
 
+	// (b-zero) parameter sets for which the hash of an all-zero window meets the discriminator: a run of zeros is then
+	// cut every min+1 bytes, not at max — the "zero areas produce no boundaries" intuition is false for them.  The
+	// averages are found by search (the window hash of 48 zero bytes against discriminatorFromAvg(avg) for every avg
+	// up to 2^21), so this follows the table and the formula of the tree under check.
+	{
+		h0 := uint32(0)
+		if t0, ok := hashTableEntry0(cfg.Repo); ok {
+			for i := 0; i < 48; i++ {
+				h0 ^= bits.RotateLeft32(t0, i)
+			}
+			var zeroAvgs []uint64
+			for avg := uint64(48); avg < 1<<21 && len(zeroAvgs) < 8; avg++ {
+				if d := desync.VerifDiscriminatorFromAvg(avg); d > 1 && h0%d == d-1 {
+					zeroAvgs = append(zeroAvgs, avg)
+				}
+			}
+			rep.Histogram[fmt.Sprintf("zero-window-boundary-avgs:%d", len(zeroAvgs))]++
+			for _, avg := range zeroAvgs {
+				for it := 0; it < cfg.N(6, 60); it++ {
+					p := chunkParams{min: 48 + uint64(rng.Intn(int(avg)-47)), avg: avg, max: avg + uint64(rng.Intn(int(avg)*3+1))}
+					if avg > 100000 {
+						p.min = avg / 4
+						p.max = avg * 2
+					}
+					var data []byte
+					data = append(data, randBytes(rng, rng.Intn(3000))...)
+					data = append(data, make([]byte, int(p.max)*(1+rng.Intn(3))+rng.Intn(500))...)
+					data = append(data, randBytes(rng, rng.Intn(3000))...)
+					if len(data) > 3_000_000 {
+						continue
+					}
+					line := mkCase("chunk.all", p, data, "")
+					res := implChunkAll(line)
+					rep.Compare(m, line, implChunkAll, shrinkData)
+					rep.Count(line, strings.Count(res, ",") >= 1, "all:zero-window-boundary")
+					checkSeq(line, res, p, len(data))
+				}
+			}
+		}
+	}
+
 	// (b') Next/Advance sequences (the parallel chunker's fast-forward uses Advance) vs model Buffered.next/advance
 	for it := 0; it < cfg.N(400, 8000); it++ {
 		p := genParams(rng)
@@ -530,3 +574,21 @@ func (nullWriteStore) HasChunk(id desync.ChunkID) (bool, error) { return false, 
 func (nullWriteStore) StoreChunk(c *desync.Chunk) error         { return nil }
 func (nullWriteStore) Close() error                             { return nil }
 func (nullWriteStore) String() string                           { return "null" }
+
+// hashTableEntry0 reads the first entry of the buzhash table from the tree under check
+func hashTableEntry0(repo string) (uint32, bool) {
+	b, err := os.ReadFile(filepath.Join(repo, "chunker.go"))
+	if err != nil {
+		return 0, false
+	}
+	i := strings.Index(string(b), "var hashTable")
+	if i < 0 {
+		return 0, false
+	}
+	m := regexp.MustCompile(`0x[0-9a-fA-F]{1,8}`).FindString(string(b[i:]))
+	if m == "" {
+		return 0, false
+	}
+	v, err := strconv.ParseUint(m[2:], 16, 32)
+	return uint32(v), err == nil
+}
